@@ -284,6 +284,12 @@ func negotiateServer(ctx context.Context, identity, password string, permissions
 }
 
 func negotiateClient(ctx context.Context, identity, password string, session *Session, data interface{}, mechanisms ...sasl.Mechanism) (SessionState, io.ReadWriter, error) {
+	// The data is the list of mechanisms parsed from the features list; be
+	// defensive about what ends up in the features cache.
+	remote, ok := data.([]string)
+	if !ok {
+		return 0, nil, errors.New("xmpp: SASL negotiation expected the list of mechanisms as feature data")
+	}
 	var mask SessionState
 	w := session.TokenWriter()
 	/* #nosec */
@@ -293,7 +299,7 @@ func negotiateClient(ctx context.Context, identity, password string, session *Se
 	// Select a mechanism, preferring the client order.
 selectmechanism:
 	for _, m := range mechanisms {
-		for _, name := range data.([]string) {
+		for _, name := range remote {
 			if name == m.Name {
 				selected = m
 				break selectmechanism
@@ -309,7 +315,7 @@ selectmechanism:
 		sasl.Credentials(func() ([]byte, []byte, []byte) {
 			return []byte(session.LocalAddr().Localpart()), []byte(password), []byte(identity)
 		}),
-		sasl.RemoteMechanisms(data.([]string)...),
+		sasl.RemoteMechanisms(remote...),
 	}
 
 	if connState := session.ConnectionState(); connState.Version != 0 {
